@@ -21,6 +21,9 @@ import (
 	"github.com/lidofinance/dc4bc/storage"
 )
 
+// dealNonceSize is the AES-GCM standard nonce size, which kyber uses to encrypt deals
+const dealNonceSize = 12
+
 func createMessage(o client.Operation, data []byte) storage.Message {
 	return storage.Message{
 		Event:         string(o.Event),
@@ -263,6 +266,10 @@ func (am *Machine) handleStateDkgResponsesAwaitConfirmations(o *client.Operation
 		}
 		if deal.Deal == nil {
 			return fmt.Errorf("deal from %s is empty", entry.Username)
+		}
+		// kyber hands the nonce to AES-GCM as is, and the cipher panics on a wrong nonce length
+		if len(deal.Deal.Nonce) != dealNonceSize {
+			return fmt.Errorf("deal from %s has an invalid nonce", entry.Username)
 		}
 		dkgInstance.StoreDeal(entry.Username, &deal)
 	}
